@@ -318,7 +318,7 @@ def check(prop: str, tier: str, batch_seed: int, repo: str, workers: int = 16,
             print(f"VIOLATION property={prop} replay={path}", flush=True)
             status = EXIT_VIOLATION
         if unconfirmed:
-            if status != EXIT_VIOLATION:
+            if status != EXIT_VIOLATION and not known_hits:
                 raise HarnessError(unconfirmed[0])
             print(f"[verif] note: {len(unconfirmed)} further violation class(es) did not replay in a fresh interpreter "
                   f"(outcome depends on process history) and are not reported", flush=True)
